@@ -26,9 +26,15 @@ def gen_file(rng, tier):
     vel = rng.random() < 0.35
     n_kinds = rng.randint(1, 5)
     kinds = []
+    # coordinate layout: %8.3f as GROMACS writes by default, or another precision (width = decimals + 5; velocities one
+    # decimal more in the same width): the length of an atom line follows from it
+    dec = 3 if rng.random() < 0.75 else rng.choice([1, 2, 4, 5, 6])
+    wid = dec + 5
+    long_names = rng.random() < 0.25        # atom names that fill their five columns
     for k in range(n_kinds):
         size = rng.randint(1, 12)
-        kinds.append((_rname(rng), [rng.choice("CNOHSP") + str(i + 1) for i in range(size)]))
+        kinds.append((_rname(rng), [(rng.choice("CNOHSP") + rng.choice("ABGD") + "%03d" % (i + 1)) if long_names and rng.random() < 0.6
+                                    else rng.choice("CNOHSP") + str(i + 1) for i in range(size)]))
     if n_kinds >= 2 and rng.random() < 0.4:
         # equal residue name, different size
         nm = kinds[0][0]
@@ -51,18 +57,18 @@ def gen_file(rng, tier):
     for r, k in enumerate(order):
         name, atoms = kinds[k]
         for an in atoms:
-            x, y, z = (round(rng.uniform(-5, 30), 3) for _ in range(3))
+            x, y, z = (round(rng.uniform(-5, 30), dec) for _ in range(3))
             if rng.random() < 0.04:
                 x, y, z = 0.0, 0.0, 0.0                    # an atom exactly at the origin
-            l = "%5d%-5s%5s%5d%8.3f%8.3f%8.3f" % (resid % 100000, name, an, atomid % 100000, x, y, z)
+            l = "%5d%-5s%5s%5d" % (resid % 100000, name, an, atomid % 100000) + "".join("%*.*f" % (wid, dec, c_) for c_ in (x, y, z))
             if vel:
-                v = tuple(round(rng.uniform(-3, 3), 4) for _ in range(3))
+                v = tuple(round(rng.uniform(-3, 3), dec + 1) for _ in range(3))
                 c = rng.random()
                 if c < 0.06:
                     v = (0.0, 0.0, 0.0)                     # an atom at rest (frozen group, freshly inserted ion)
                 elif c < 0.1:
                     v = (0.0, v[1], 0.0)
-                l += "%8.4f%8.4f%8.4f" % v
+                l += "".join("%*.*f" % (wid, dec + 1, c_) for c_ in v)
             lines.append(l)
             atomid += 1
         c = rng.random()
@@ -119,8 +125,11 @@ def parse_expected(text):
     n = int(lines[1])
     recs = []
     for l in lines[2:2 + n]:
-        nf = (len(l) - 20) // 8
-        vals = [float(l[20 + 8 * k:28 + 8 * k]) for k in range(nf)]
+        # field width = distance between the first two decimal points after column 20
+        p1 = l.index(".", 20)
+        w = l.index(".", p1 + 1) - p1
+        nf = (len(l) - 20) // w
+        vals = [float(l[20 + w * k:20 + w * (k + 1)]) for k in range(nf)]
         recs.append((int(l[0:5]), l[5:10].strip(), l[10:15].strip(), int(l[15:20]), tuple(vals[:3]),
                      tuple(vals[3:6]) if nf == 6 else None))
     residues = []
@@ -143,6 +152,16 @@ def residue_matches(res, want):
         return f"not iterable: {e!r}"
     if len(atoms) != len(want):
         return f"{len(atoms)} atoms, file has {len(want)}"
+    try:
+        # the residue as a whole: its own length, name and number
+        if len(res) != len(want):
+            return f"len(residue) = {len(res)}, file has {len(want)} atoms"
+        if hasattr(res, "resname") and res.resname != want[0][1]:
+            return f"residue name {res.resname!r}, file has {want[0][1]!r}"
+        if hasattr(res, "resid") and res.resid != want[0][0]:
+            return f"residue number {res.resid!r}, file has {want[0][0]!r}"
+    except Exception as e:
+        return f"residue attributes raised {e!r}"
     for a, w in zip(atoms, want):
         got = (a.resid, a.resname, a.name, a.atomid, tuple(float(x) for x in a.position),
                None if a.velocity is None else tuple(float(x) for x in a.velocity))
@@ -200,6 +219,7 @@ def execute(trace, ctx):
     if any(expected[i][0][1] == expected[i + 1][0][1] and len(expected[i]) != len(expected[i + 1]) for i in range(n - 1)):
         ctx.probe("equal_name_different_size_adjacent")
     iters = []     # [iterator, position]
+    retained = []  # (residue object handed out, its index): checked again at the end, after everything else was read
 
     def idx(rel, edge):
         if edge is None:
@@ -233,6 +253,8 @@ def execute(trace, ctx):
                         ctx.violate(P, "iteration-too-long", f"an iterator yielded more than the {n} residues of the file")
                         it[1] = None
                         break
+                    if len(retained) < 300:
+                        retained.append((res, it[1]))
                     m = residue_matches(res, expected[it[1]])
                     if m:
                         ctx.violate(P, "iterated-residue", f"item {it[1]} of a live iterator (after {i} interleaved operations): {m}",
@@ -254,6 +276,8 @@ def execute(trace, ctx):
                 if not in_range:
                     ctx.violate(P, "index-out-of-range-accepted", f"residue index {k} of {n} returned a residue")
                     continue
+                if len(retained) < 300:
+                    retained.append((res, k))
                 m = residue_matches(res, expected[k])
                 if m:
                     ctx.violate(P, "indexed-residue", f"residue [{k}] (operation {i}): {m}", key="neg" if k < 0 else "pos")
@@ -307,9 +331,20 @@ def execute(trace, ctx):
             ctx.op(kind, "raised")
             ctx.violate(P, "access-raised", f"operation {op} raised {type(e).__name__}: {e}\n{traceback.format_exc()[-600:]}",
                         key=kind)
+    # residues handed out earlier are still the file's records ("the same data regardless of what was read before" also
+    # for the objects the caller still holds)
+    for res, k in retained:
+        m = residue_matches(res, expected[k])
+        if m:
+            ctx.violate(P, "retained-residue-changed", f"the residue returned earlier for position {k} changed after later "
+                                                       f"accesses: {m}")
+            break
+    if retained:
+        ctx.probe("retained_residues_rechecked")
     # the usual idiom `for residue in SystemGro(path)`: nothing but the iterator keeps the view alive
     if len(trace["ops"]) % 3 == 0:
         import gc
+        got = []
         try:
             it = iter(SystemGro(path))
             got = []
@@ -320,8 +355,9 @@ def execute(trace, ctx):
                 if len(got) > n:
                     break
         except Exception as e:
+            n_got = len(got)
             ctx.violate(P, "temporary-view-iteration", f"`for residue in SystemGro(path)` raised {type(e).__name__}: {e} after "
-                                                       f"{len(got)} of {n} residues")
+                                                       f"{n_got} of {n} residues")
             got = None
         if got is not None:
             if len(got) != n:
